@@ -236,6 +236,10 @@ theorem C01_scan_progress (sc : Scanner) (y : Syn) (s : Array Char) (i j : Nat) 
   case almostAny => have := almostAny_ge _ _ _ _ h; omega
 
 
+example : runScanner .whitespace .scss " /* c */ // d\n  x".toList.toArray 0 = .ok 16 := by decide +kernel
+example : runScanner (.declValue true) .scss "a(b[c]) \"x)\" )".toList.toArray 0 = .ok 13 := by decide +kernel
+example : runScanner .almostAny .sass "a url(x y) \"s\" \\; z\nq".toList.toArray 0 = .ok 19 := by decide +kernel
+
 /-- **Strict progress of the loop steps.**  The scanners that a loop calls as one step, and whose
     success lets the loop go round again, consume at least one token — this is what the
     termination proofs of the enclosing loops rest on. -/
@@ -253,5 +257,280 @@ theorem C01_step_advances (y : Syn) (s : Array Char) (i j : Nat) :
     fun h => (parseString_adv _ _ _ h).1, fun h => (parseIString_adv _ _ _ h).1,
     fun h => (tryUrlBase_adv _ _ _ h).1, fun h => (tryUrlSheet_adv _ _ _ _ h).1⟩
 
+
+example : parseString "\"a\\\"b\" c".toList.toArray 0 = .ok 6 := by decide +kernel
+
+/-- What a scanner may answer at end of input: it stays where it is, or reports an error, or is
+    outside the model (never: loops, never: moves). -/
+def eofAnswer (i : Nat) (r : Res) : Prop := r = .ok i ∨ ∃ e sp, r = .err e sp
+
+theorem peekIs_eof {s : Array Char} {i : Nat} (h : s.size ≤ i) (c : Char) : peekIs s i c = false := by
+  unfold peekIs; simp [show ¬ i < s.size by omega]
+
+theorem peekSat_eof {s : Array Char} {i : Nat} (h : s.size ≤ i) (p : Char → Bool) : peekSat s i p = false := by
+  unfold peekSat; simp [show ¬ i < s.size by omega]
+
+theorem wsNoComments_eof (b : Bool) {s : Array Char} {i : Nat} (h : s.size ≤ i) : wsNoComments b s i = i := by
+  unfold wsNoComments; simp [show ¬ i < s.size by omega]
+
+theorem lookingAtIdentifier_eof {s : Array Char} {i : Nat} (h : s.size ≤ i) : lookingAtIdentifier s i = false := by
+  unfold lookingAtIdentifier; simp [show ¬ i < s.size by omega]
+
+theorem scanUrlIdent_eof {s : Array Char} {i : Nat} (h : s.size ≤ i) : scanUrlIdent s i = .ok none := by
+  unfold scanUrlIdent; simp [lookingAtIdentifier_eof h]
+
+/-- **End of input.**  With the cursor at (or past) the end of the buffer every scanner returns
+    immediately: `ok` at the same cursor or an error value — this is the `peek() == None` arm of
+    each loop.  (The as-found indented loud-comment loop violates exactly this, see below.) -/
+theorem C01_scan_eof (sc : Scanner) (y : Syn) (s : Array Char) (i : Nat) (hi : s.size ≤ i) :
+    eofAnswer i (runScanner sc y s i) := by
+  have hn : ¬ i < s.size := by omega
+  have hn1 : ¬ i + 1 < s.size := by omega
+  cases sc <;> simp only [runScanner, eofAnswer]
+  case wsNoComments => left; rw [wsNoComments_eof _ hi]
+  case whitespace => left; unfold whitespace; simp [wsNoComments_eof _ hi, hn1]
+  case loudComment =>
+    right; unfold loudFor; split
+    · unfold sassLoudBody; simp [hn]
+    · unfold loudBody; simp [hn]
+  case escape b => right; unfold parseEscape; simp [hn, ResT.toRes]
+  case escapedChar => right; unfold consumeEscapedChar; simp [hn, ResT.toRes]
+  case identifier n u => right; unfold parseIdentifier; simp [peekIs_eof hi, hn, ResT.toRes]
+  case interpIdent => right; unfold parseIIdent; simp [peekIs_eof hi, hn]
+  case string => right; unfold parseString; simp [hn]
+  case interpString => right; unfold parseIString; simp [hn]
+  case number =>
+    right; unfold parseNumber numberLit afterSign naturalPart; simp [hn]
+  case urlBase => left; unfold tryUrlBase; simp [scanUrlIdent_eof hi, UrlRes.toRes]
+  case urlSheet => left; unfold tryUrlSheet; simp [scanUrlIdent_eof hi, UrlRes.toRes]
+  case declValue ae =>
+    unfold declarationValue declValue; simp [hn]
+    cases ae <;> simp
+  case interpDeclValue a b c =>
+    unfold interpolatedDeclarationValue ideclValue; simp [hn, idvBufferEmpty]
+    cases b <;> simp
+  case almostAny => left; unfold almostAny; simp [hn]
+
+example : runScanner .loudComment .sass "/*#*[".toList.toArray 5 = .err .expectedMoreInput (.cur 5) := by
+  decide +kernel
+
+/-! ### C01: error spans lie inside the file, on character boundaries -/
+
+theorem boundaries_head (n : Nat) (s : List Char) : n ∈ boundaries n s := by
+  cases s <;> simp [boundaries]
+
+theorem boundaries_bounds (n : Nat) (s : List Char) : ∀ x ∈ boundaries n s, n ≤ x ∧ x ≤ n + byteLen s := by
+  induction s generalizing n with
+  | nil => intro x hx; simp [boundaries] at hx; subst hx; simp [byteLen]
+  | cons c rest ih =>
+    intro x hx
+    simp only [boundaries, List.mem_cons] at hx
+    rcases hx with hx | hx
+    · subst hx; simp [byteLen]
+    · have := ih _ x hx; simp only [byteLen]; omega
+
+/-- Every token starts and ends on a character boundary of the text it was lexed from. -/
+theorem lexFrom_boundaries (n : Nat) (s : List Char) :
+    ∀ t ∈ lexFrom n s, t.pos ∈ boundaries n s ∧ (t.pos + t.kind.utf8Size) ∈ boundaries n s := by
+  have hLF : LF.utf8Size = 1 := by decide
+  have hCR : CR.utf8Size = 1 := by decide
+  have hFF : FF.utf8Size = 1 := by decide
+  fun_induction lexFrom n s
+  case case1 => intro t ht; cases ht
+  case case2 cur rest ih =>
+    intro t ht
+    simp only [List.mem_cons] at ht
+    simp only [boundaries, hFF]
+    rcases ht with ht | ht
+    · subst ht
+      exact ⟨List.mem_cons_self, List.mem_cons_of_mem _ (by simpa [hLF] using boundaries_head (cur + 1) rest)⟩
+    · have := ih t ht
+      exact ⟨List.mem_cons_of_mem _ this.1, List.mem_cons_of_mem _ this.2⟩
+  case case3 cur hne =>
+    intro t ht
+    simp only [List.mem_cons, List.not_mem_nil, or_false] at ht
+    subst ht
+    simp [boundaries, hLF, hCR]
+  case case4 cur rest' hne ih =>
+    intro t ht
+    simp only [List.mem_cons] at ht
+    simp only [boundaries, hLF, hCR]
+    rw [show cur + 1 + 1 = cur + 2 by omega]
+    rcases ht with ht | ht
+    · subst ht
+      exact ⟨List.mem_cons_of_mem _ List.mem_cons_self,
+        List.mem_cons_of_mem _ (List.mem_cons_of_mem _ (by simpa [hLF] using boundaries_head (cur + 2) rest'))⟩
+    · have := ih t ht
+      exact ⟨List.mem_cons_of_mem _ (List.mem_cons_of_mem _ this.1),
+        List.mem_cons_of_mem _ (List.mem_cons_of_mem _ this.2)⟩
+  case case5 cur d rest' hd hne ih =>
+    intro t ht
+    simp only [List.mem_cons] at ht
+    rw [boundaries, hCR]
+    rcases ht with ht | ht
+    · subst ht
+      exact ⟨List.mem_cons_self, List.mem_cons_of_mem _ (by simpa [hLF] using boundaries_head (cur + 1) (d :: rest'))⟩
+    · have := ih t ht
+      exact ⟨List.mem_cons_of_mem _ this.1, List.mem_cons_of_mem _ this.2⟩
+  case case6 cur c rest hc1 hc2 ih =>
+    intro t ht
+    simp only [List.mem_cons] at ht
+    rw [boundaries]
+    rcases ht with ht | ht
+    · subst ht
+      exact ⟨List.mem_cons_self, List.mem_cons_of_mem _ (boundaries_head _ _)⟩
+    · have := ih t ht
+      exact ⟨List.mem_cons_of_mem _ this.1, List.mem_cons_of_mem _ this.2⟩
+
+theorem spanAtIndex_cases (ts : Array Tok) (idx : Nat) :
+    spanAtIndex ts idx = (0, 0) ∨ ∃ t ∈ ts.toList, spanAtIndex ts idx = (t.pos, t.kind.utf8Size) := by
+  unfold spanAtIndex
+  split
+  · rename_i t ht
+    right; exact ⟨t, Array.mem_toList_iff.mpr (Array.mem_of_getElem? ht), rfl⟩
+  · split
+    · rename_i t ht
+      right
+      refine ⟨t, ?_, rfl⟩
+      rw [Array.back?] at ht
+      exact Array.mem_toList_iff.mpr (Array.mem_of_getElem? ht)
+    · left; rfl
+
+/-- a span end: 0, or the start or end of some token -/
+def isEdge (src : List Char) (x : Nat) : Prop := x ∈ boundaries 0 src
+
+theorem spanAtIndex_edges (src : List Char) (idx : Nat) :
+    isEdge src (spanAtIndex (lex src).toArray idx).1 ∧
+    isEdge src ((spanAtIndex (lex src).toArray idx).1 + (spanAtIndex (lex src).toArray idx).2) := by
+  rcases spanAtIndex_cases (lex src).toArray idx with h | ⟨t, ht, h⟩
+  · rw [h]; exact ⟨boundaries_head 0 src, boundaries_head 0 src⟩
+  · rw [h]
+    have := lexFrom_boundaries 0 src t (by simpa [lex] using ht)
+    exact this
+
+theorem spanInFile_of_edges (src : List Char) (lo hi : Nat) (h1 : isEdge src lo) (h2 : isEdge src hi)
+    (h3 : lo ≤ hi) : spanInFile src lo hi = true := by
+  have := boundaries_bounds 0 src hi h2
+  unfold spanInFile
+  simp only [Bool.and_eq_true, decide_eq_true_eq, List.contains_iff_mem]
+  unfold isEdge at h1 h2
+  refine ⟨⟨⟨h3, by omega⟩, ?_⟩, ?_⟩ <;> simpa using ‹_›
+
+/-- **Located errors.**  Whatever span reference an error carries (`current_span`, `prev_span`,
+    `span_from(start)` at any cursor whatsoever), the byte span it denotes over the lexed file is
+    inside the file and both ends are character boundaries: `spanInFile` — the predicate the driver
+    also evaluates on the spans grass reports — holds. -/
+theorem C01_err_span_in_file (src : List Char) (sp : SpanRef) :
+    spanInFile src (spanBytes (lex src).toArray sp).1 (spanBytes (lex src).toArray sp).2 = true := by
+  cases sp with
+  | cur i =>
+    have := spanAtIndex_edges src i
+    simp only [spanBytes]
+    exact spanInFile_of_edges src _ _ this.1 this.2 (by omega)
+  | prev i =>
+    have := spanAtIndex_edges src (i - 1)
+    simp only [spanBytes]
+    exact spanInFile_of_edges src _ _ this.1 this.2 (by omega)
+  | range st i =>
+    have a := spanAtIndex_edges src st
+    have b := spanAtIndex_edges src (i - 1)
+    simp only [spanBytes]
+    refine spanInFile_of_edges src _ _ ?_ ?_ (by omega)
+    · rcases Nat.le_total (spanAtIndex (lex src).toArray st).1 (spanAtIndex (lex src).toArray (i - 1)).1 with h | h
+      · rw [Nat.min_eq_left h]; exact a.1
+      · rw [Nat.min_eq_right h]; exact b.1
+    · rcases Nat.le_total ((spanAtIndex (lex src).toArray st).1 + (spanAtIndex (lex src).toArray st).2)
+          ((spanAtIndex (lex src).toArray (i - 1)).1 + (spanAtIndex (lex src).toArray (i - 1)).2) with h | h
+      · rw [Nat.max_eq_right h]; exact b.2
+      · rw [Nat.max_eq_left h]; exact a.2
+
+example : spanBytes (lex ['a', 'é', CR, LF, 'b']).toArray (.range 1 3) = (1, 5) := by decide
+
+/-- In particular for every error any modelled scanner returns. -/
+theorem C01_scan_error_located (sc : Scanner) (y : Syn) (src : List Char) (i : Nat) (e : ErrClass) (sp : SpanRef)
+    (_h : runScanner sc y (kinds (lex src)).toArray i = .err e sp) :
+    spanInFile src (spanBytes (lex src).toArray sp).1 (spanBytes (lex src).toArray sp).2 = true :=
+  C01_err_span_in_file src sp
+
+/-! ### C01: conversion guard -/
+
+/-- **`Number::convert` is total on comparable pairs** (its documented invariant, number.rs:155):
+    the table index cannot miss. -/
+theorem C01_convert_guarded (u v : U) (h : comparable u v = true) : (convert? u v).isSome = true := by
+  cases u <;> cases v <;> simp_all [comparable, convert?]
+  all_goals (try (split <;> simp_all))
+
+example : comparable (.conv 0 1) (.conv 0 2) = true ∧ convert? (.conv 0 1) (.conv 0 2) = some () := by decide
+
+/-- **`clamp()` as it is now** (guard `has_compatible_units` on min/value and min/max,
+    calculation.rs:195): both conversions it then performs (`min → value`, `max → value`) hit the table. -/
+theorem C01_clamp_guarded (mn v mx : U) : (clampConversions false mn v mx).isSome = true := by
+  cases mn <;> cases v <;> cases mx <;> simp [clampConversions, compatible, comparable, convert?]
+  all_goals (split <;> simp_all)
+  all_goals (try (split <;> simp_all))
+  all_goals (rename_i h _; omega)
+
+example : clampConversions false (.conv 0 0) (.conv 0 1) (.conv 0 2) = some () := by decide
+
+/-- **As found** (guard `is_comparable_to`, pinned tree): a unitless minimum is comparable to
+    everything, so `clamp(1, 2px, 3em)` converts `em` to `px` — a missing table key, i.e. a panic. -/
+theorem C01_asFound_clamp_unguarded :
+    clampConversions true .none (.conv 0 0) (.other 1) = none ∧
+    clampConversions false .none (.conv 0 0) (.other 1) = some () := by decide
+
+/-! ### C01: the indented-syntax loud comment, as found and as it is now -/
+
+/-- As found, once the cursor is at the end of the buffer the loop never leaves: whatever the
+    fuel, the run is still going when it is spent. -/
+theorem sassLoudAsFound_eof_diverges (fuel : Nat) (s : Array Char) (i : Nat) (h : s.size ≤ i) :
+    sassLoudAsFound fuel s i = .outOfFuel := by
+  induction fuel with
+  | zero => rfl
+  | succ n ih => unfold sassLoudAsFound; simp [show ¬ i < s.size by omega, ih]
+
+/-- the 7-byte input of defect D2, `/]/*#*[`, as the token buffer -/
+def d2Input : Array Char := #['/', ']', '/', '*', '#', '*', '[']
+
+/-- **Witness (as found).**  On `/]/*#*[` the as-found loop, entered after the `/*` at index 4,
+    runs out of any amount of fuel: it does not terminate. -/
+theorem C01_asFound_sassLoudComment_diverges : ∀ fuel, sassLoudAsFound fuel d2Input 4 = .outOfFuel := by
+  intro fuel
+  match fuel with
+  | 0 => rfl
+  | 1 => decide +kernel
+  | 2 => decide +kernel
+  | n + 3 =>
+    have e : sassLoudAsFound (n + 3) d2Input 4 = sassLoudAsFound (n + 1) d2Input 7 := by
+      have h1 : sassLoudAsFound (n + 3) d2Input 4 = sassLoudAsFound (n + 2) d2Input 5 := by
+        rw [sassLoudAsFound]
+        simp [d2Input]
+      have h2 : sassLoudAsFound (n + 2) d2Input 5 = sassLoudAsFound (n + 1) d2Input 7 := by
+        rw [sassLoudAsFound]
+        have hk : skipStars d2Input 6 = 6 := by decide +kernel
+        simp [d2Input] at hk ⊢
+        simp [hk]
+      rw [h1, h2]
+    rw [e]
+    exact sassLoudAsFound_eof_diverges _ _ _ (by simp [d2Input])
+
+/-- The same input with the loop as it is now: an error value, at the end of the file. -/
+theorem C01_sassLoudComment_now_errors :
+    sassLoudBody d2Input 4 = .err .expectedMoreInput (.cur 7) := by decide +kernel
+
+/-! ### the full property (not proved) -/
+
+/-- What one compilation can do, seen from outside. -/
+inductive Outcome where
+  | css (text : List Char)
+  | error (message : List Char) (lo hi : Nat)
+  | panic | abort | hang
+  deriving Repr
+
+/-- The full statement of C01 over the whole compiler (`compile syntax compressed options bytes`,
+    for programs whose own loops are bounded): UNPROVED.  Only the scanner layer, error location
+    and the conversion guard above are theorems; the rest is tested (tools/props/c01.py). -/
+def C01_full (compile : Syn → Bool → Nat → List UInt8 → Outcome) : Prop :=
+  ∀ y compressed opts bytes,
+    (∃ t, compile y compressed opts bytes = .css t) ∨ (∃ m lo hi, compile y compressed opts bytes = .error m lo hi)
 
 end Grass.Lexer
